@@ -153,13 +153,38 @@ func c04Case(c *core.Case) {
 	for i := range parts {
 		parts[i] = &hcl.BodySchema{}
 	}
-	for _, a := range union.Attributes {
-		p := parts[r.Intn(k)]
-		p.Attributes = append(p.Attributes, a)
+	if gen.Chance(r, 0.4) {
+		// the split as an application would write it: consecutive sub-slices of one
+		// list, so that every part's slice has the following parts in its spare
+		// capacity (a callee that appends to it in place damages the next part)
+		allA := append([]hcl.AttributeSchema(nil), union.Attributes...)
+		allB := append([]hcl.BlockHeaderSchema(nil), union.Blocks...)
+		r.Shuffle(len(allA), func(i, j int) { allA[i], allA[j] = allA[j], allA[i] })
+		r.Shuffle(len(allB), func(i, j int) { allB[i], allB[j] = allB[j], allB[i] })
+		cutA, cutB := 0, 0
+		for i := range parts {
+			na, nb := len(allA)-cutA, len(allB)-cutB
+			if i < k-1 {
+				na, nb = r.Intn(na+1), r.Intn(nb+1)
+			}
+			parts[i].Attributes = allA[cutA : cutA+na]
+			parts[i].Blocks = allB[cutB : cutB+nb]
+			cutA, cutB = cutA+na, cutB+nb
+		}
+	} else {
+		for _, a := range union.Attributes {
+			p := parts[r.Intn(k)]
+			p.Attributes = append(p.Attributes, a)
+		}
+		for _, b := range union.Blocks {
+			p := parts[r.Intn(k)]
+			p.Blocks = append(p.Blocks, b)
+		}
 	}
-	for _, b := range union.Blocks {
-		p := parts[r.Intn(k)]
-		p.Blocks = append(p.Blocks, b)
+	// (the parts are compared with a private copy after the run: schemas belong to the caller)
+	partsCopy := make([]string, k)
+	for i, p := range parts {
+		partsCopy[i] = schemaStr(p)
 	}
 	inAttr, inBlock := map[string]bool{}, map[string]bool{}
 	for _, a := range union.Attributes {
@@ -461,6 +486,44 @@ func c04Case(c *core.Case) {
 			}
 			c.Count("consumed-items-stay-consumed")
 		}
+		// -------- one remainder used twice: a remainder is a value, extracting from it
+		// does not change it
+		{
+			half := &hcl.BodySchema{}
+			for i, a := range union.Attributes {
+				if i%2 == 0 {
+					half.Attributes = append(half.Attributes, hcl.AttributeSchema{Name: a.Name})
+				}
+			}
+			for i, b := range union.Blocks {
+				if i%2 == 0 {
+					half.Blocks = append(half.Blocks, b)
+				}
+			}
+			if _, remT, dT := im.body.PartialContent(half); !dT.HasErrors() && remT != nil {
+				restS := &hcl.BodySchema{}
+				for i, a := range union.Attributes {
+					if i%2 == 1 {
+						restS.Attributes = append(restS.Attributes, hcl.AttributeSchema{Name: a.Name})
+					}
+				}
+				for i, b := range union.Blocks {
+					if i%2 == 1 {
+						restS.Blocks = append(restS.Blocks, b)
+					}
+				}
+				c1, _, e1 := remT.PartialContent(restS)
+				c2, _, e2 := remT.PartialContent(restS)
+				c.Evals(3)
+				a1, b1 := contentSigOf(c1)
+				a2, b2 := contentSigOf(c2)
+				if sigString(a1, b1) != sigString(a2, b2) || e1.HasErrors() != e2.HasErrors() {
+					c.Violation("remainder-changed-by-extraction/"+implKind(im.name), fmt.Sprintf("%s: the same remaining body gives %s (errors=%v) to a first PartialContent(%s) and %s (errors=%v) to a second one", im.name, sigString(a1, b1), e1.HasErrors(), schemaStr(restS), sigString(a2, b2), e2.HasErrors()), nil)
+					return
+				}
+				c.Count("remainders-stable-under-repeated-extraction")
+			}
+		}
 		// -------- k-step chain vs one step
 		var cur hcl.Body = im.body
 		accA, accB := map[string]bool{}, map[string][]string{}
@@ -500,6 +563,12 @@ func c04Case(c *core.Case) {
 			return
 		}
 		c.Count("chains-agreed")
+		for i, p := range parts {
+			if schemaStr(p) != partsCopy[i] {
+				c.Violation("caller-schema-modified/"+implKind(im.name), fmt.Sprintf("%s: part %d of the caller's split schema was %s before the chain and is %s after it", im.name, i, partsCopy[i], schemaStr(p)), nil)
+				return
+			}
+		}
 		// -------- cross-implementation agreement (per-type sequences follow each implementation's own order;
 		// native, json and dynblock share the logical order)
 		if ii == 0 {
